@@ -19,7 +19,8 @@ RULE = ("schedule exploration with real threads: for ordered pairs (A, B) of cal
         "call that raises SettingValidationError, the default-settings call), thread A is pre-empted once when about to execute "
         "its k-th library line (sys.monitoring LINE), B runs to completion or until it blocks, A resumes. quick: per pair and "
         "direction the first k of every distinct (file, line) location (cap 250) + 50 seeded random k; thorough: every k. Plus "
-        "free-running stress (8 threads x random pool calls, switch interval 1 us). Oracle: each call's outcome equals its "
+        "free-running stress (8 threads x random pool calls, switch interval 1 us, seeded yield injection) and cold-start rounds "
+        "(fresh interpreters whose very first library calls are made by 8 threads released by a barrier). Oracle: each call's outcome equals its "
         "fresh-process sequential outcome. non-trivial distinct = distinct realised schedules (pair, direction, k) + stress rounds.")
 ASSUMPTIONS = ["exactly one pre-emption per controlled schedule, at line granularity inside the library (switches inside C-level "
                "calls or between bytecodes of one line are not explored); the stress part adds uncontrolled multi-switch runs",
@@ -56,6 +57,10 @@ POOL = [
     mk("fr_cache1", "parse", "12 mai 2015", "fr", {"CACHE_SIZE_LIMIT": 1}),
     mk("de_cache1", "parse", "3. Januar 2011", "de", {"CACHE_SIZE_LIMIT": 1, "DATE_ORDER": "DMY"}),
     mk("default", "parse", "02/03/2015", None, nobase=True),
+    mk("fmt_en", "parse", "05/12/2015", "en", formats=["%d/%m/%Y"]), mk("fmt_fr", "ddp", "12 mai 2015", "fr", formats=["%d %B %Y"]),
+    mk("region_gb", "ddp", "02/03/2015", None, langs=["en"], region="GB"), mk("loc_ca", "ddp", "3 mth ago", None, locales=["en-CA"]),
+    mk("hijri", "hijri", "1437/05/13", None), mk("search_auto", "search", "Meeting on 02/03/2015 at 10:45", None, adl=True),
+    mk("multi", "ddp", "02/03/2015", None, langs=["fr", "en"], ugo=True),
 ]
 for _i, _c in enumerate(POOL):
     _c["id"] = _i
@@ -65,7 +70,9 @@ PAIRS = [("fr_num", "en_num"), ("en_num", "en_dmy"), ("fr_num", "default"), ("en
          ("search_fr", "search_en"), ("search_en", "inst_en"), ("inst_en", "inst_en2"), ("inst_en", "fr_num"),
          ("jalali", "fr_num"), ("bad", "en_num"), ("bad", "fr_num"), ("fr_cache1", "de_cache1"), ("fr_cache1", "en_num"),
          ("search_fr", "fr_num"), ("en_num", "en_num"), ("fr_num", "fr_num"), ("search_en", "search_en"),
-         ("en_dmy", "fr_num"), ("default", "en_dmy"), ("en_tz", "fr_nonorm")]
+         ("en_dmy", "fr_num"), ("default", "en_dmy"), ("en_tz", "fr_nonorm"),
+         ("fmt_en", "en_num"), ("fmt_fr", "fr_num"), ("region_gb", "en_num"), ("loc_ca", "rel_en"), ("hijri", "jalali"),
+         ("search_auto", "fr_num"), ("multi", "en_dmy"), ("region_gb", "multi")]
 
 
 def shards(tier, seed):
@@ -78,6 +85,9 @@ def shards(tier, seed):
     for i, (a, b) in enumerate(PAIRS):
         out.append({"part": "pair", "a": a, "b": b, "refs": refs, "i": i})
     out.append({"part": "stress", "refs": refs, "rounds": 4 if tier == "quick" else 20})
+    # cold start: each shard is a fresh interpreter whose very first library calls are made by 8 threads at once
+    for j in range(6 if tier == "quick" else 40):
+        out.append({"part": "cold", "refs": refs, "j": j})
     return out
 
 
@@ -245,6 +255,58 @@ def run_stress(ctx, desc):
         sys.setswitchinterval(old)
 
 
+def run_cold(ctx, desc):
+    """Nothing is warmed: locale data, dictionaries, regex caches and the settings registry are first touched concurrently."""
+    refs = desc["refs"]
+    insts = {}
+    r = random.Random(ctx.seed * 7919 + desc["j"])
+    plan = [[r.choice(POOL) for _ in range(6)] for _ in range(8)]
+    if desc["j"] % 2 == 0:
+        # every thread starts with the same call: concurrent first load of one language
+        first = r.choice(POOL)
+        for pl in plan:
+            pl[0] = first
+    barrier = threading.Barrier(8)
+    results, lock = [], threading.Lock()
+    old = sys.getswitchinterval()
+    sys.setswitchinterval(1e-6)
+    inj = YieldInjector(repo_path() + "/dateparser/", ctx.seed * 100 + desc["j"], p=0.01)
+    inj.start()
+
+    def worker(wi):
+        barrier.wait()
+        for c in plan[wi]:
+            out = C.execute(c, insts)
+            with lock:
+                results.append((c["name"], out))
+
+    try:
+        ts = [threading.Thread(target=worker, args=(i,)) for i in range(8)]
+        for t in ts:
+            t.start()
+        for t in ts:
+            t.join(600)
+        if any(t.is_alive() for t in ts):
+            ctx.inconclusive.append("cold-start round hung")
+            return
+    finally:
+        inj.stop()
+        sys.setswitchinterval(old)
+    bad = 0
+    for name, out in results:
+        ctx.ran()
+        if not C.same_outcome(out, refs[name]):
+            bad += 1
+            ctx.violation({"kind": "stress", "round": "cold-%d" % desc["j"], "call": BY[name]}, out, refs[name],
+                          "concurrent-divergence", {"pair": "cold-start", "who": name, "file": None,
+                                                    "exc": out[1] if out[0] == "exc" else None})
+    ctx.count("cold_start_calls", len(results))
+    ctx.count("cold_start_yields_injected", inj.yields)
+    if not bad:
+        ctx.nontrivial("cold", desc["j"])
+        ctx.count("cold_start_rounds_clean")
+
+
 def run_shard(ctx, desc):
     import dateparser  # noqa
     import dateparser.search  # noqa
@@ -258,6 +320,8 @@ def run_shard(ctx, desc):
     try:
         if desc["part"] == "pair":
             run_pair(ctx, desc)
+        elif desc["part"] == "cold":
+            run_cold(ctx, desc)
         else:
             run_stress(ctx, desc)
     finally:
@@ -273,6 +337,8 @@ def finalize(merged, tier, seed):
         inc.append("only %d schedules realised" % c.get("schedules_realised", 0))
     if c.get("stress_calls", 0) < 2000:
         inc.append("stress part ran only %d calls" % c.get("stress_calls", 0))
+    if c.get("cold_start_calls", 0) < 200:
+        inc.append("cold-start part ran only %d calls" % c.get("cold_start_calls", 0))
     return {"inconclusive": inc, "anchors_hit": {k[7:]: v for k, v in c.items() if k.startswith("anchor:")},
             "schedules_realised": c.get("schedules_realised", 0), "schedules_in_which_B_blocked": c.get("schedules_B_blocked", 0),
             "distinct_preemption_locations_summed_over_pairs": c.get("distinct_preemption_locations", 0)}
